@@ -7,6 +7,7 @@ import (
 	"os"
 	"sort"
 	"strings"
+	"sync"
 	"time"
 
 	"golang.org/x/tools/go/ssa"
@@ -46,7 +47,13 @@ type Observation struct {
 	Val   Value
 }
 
+// Engine fields that are maps/pointers are shared by the per-worker copies made by the parallel explorer;
+// every write to them happens under mu (or the solver session lock).
 type Engine struct {
+	mu        *sync.Mutex // guards the shared maps and result lists
+	solverMu  *sync.Mutex // one solver session at a time
+	inSession bool        // this worker holds solverMu (per-worker copy field)
+	Workers   int
 	prog   *ssa.Program
 	Solver *smt.Solver
 	Log    io.Writer
@@ -71,10 +78,12 @@ type Engine struct {
 	atomicFns  map[string]bool
 	visibleFns map[string]VisKind
 
-	objIDs    map[objKey]ObjID
-	objKeys   []objKey
-	threadIDs map[threadKey]ThreadID
-	threadKeys []threadKey
+	objIDs    *sync.Map // objKey -> ObjID
+	nObj      *int
+	threadIDs *sync.Map // threadKey -> ThreadID
+	threadKeyOf *sync.Map // ThreadID -> threadKey
+	nThr      *int
+	localFuncs map[*ssa.Function]bool // per-worker set of functions entered
 	globals   map[*ssa.Global]ObjID
 	initPkgs  map[string]bool
 
@@ -87,9 +96,14 @@ type Engine struct {
 
 	symVars    map[string]*term.Term // vrt labels -> variable
 	symOrder   []string
+	symOrd     *[]string
+	assumes    *int64
 	Violations []*Violation
 	violSeen   map[string]bool
 	Inconclusive []string
+	inconcl      *[]string
+	viol         *[]*Violation
+	witness      **Violation
 	Funcs      map[string]bool
 	ModelsUsed map[string]bool
 	Assumes    int
@@ -98,7 +112,8 @@ type Engine struct {
 	nclock     int
 	ntoken     int
 	durStrs    map[*term.Term]*term.Term
-	fnIDs      map[*ssa.Function]int
+	fnIDs      *sync.Map
+	nFn        *int
 
 	harnessName string
 	promoted    map[ssa.Instruction]bool // racy accesses promoted to visible operations
@@ -117,19 +132,22 @@ type Engine struct {
 }
 
 func NewEngine(prog *ssa.Program, solver *smt.Solver) *Engine {
-	e := &Engine{prog: prog, Solver: solver, Log: os.Stderr,
+	e := &Engine{prog: prog, Solver: solver, Log: os.Stderr, mu: &sync.Mutex{}, solverMu: &sync.Mutex{}, Workers: 1,
 		FeasCheck: true, MergeReleases: true, Unwind: 300, MaxDepth: 200, MaxEnum: 16, MaxAlloc: 40000, MaxConfigs: 5_000_000,
 		intrinsics: map[string]Intrinsic{}, modelFns: map[string]*ssa.Function{}, atomicFns: map[string]bool{},
 		visibleFns: map[string]VisKind{},
-		objIDs:     map[objKey]ObjID{}, threadIDs: map[threadKey]ThreadID{}, globals: map[*ssa.Global]ObjID{},
+		objIDs:     &sync.Map{}, threadIDs: &sync.Map{}, threadKeyOf: &sync.Map{}, nObj: new(int), nThr: new(int), nFn: new(int), globals: map[*ssa.Global]ObjID{},
 		initPkgs: map[string]bool{}, probes: map[*term.Term]*term.Term{}, strToBytes: map[*term.Term]Slice{},
 		bytesAx: map[int]bool{}, symVars: map[string]*term.Term{}, violSeen: map[string]bool{},
-		Funcs: map[string]bool{}, ModelsUsed: map[string]bool{}, fnIDs: map[*ssa.Function]int{},
+		Funcs: map[string]bool{}, ModelsUsed: map[string]bool{}, fnIDs: &sync.Map{},
 		durStrs: map[*term.Term]*term.Term{},
 		promoted: map[ssa.Instruction]bool{}, RaceInstrs: map[ssa.Instruction]bool{}, Races: map[string]string{}, RaceCheck: true,
 	}
-	e.objKeys = append(e.objKeys, objKey{})
-	e.threadKeys = append(e.threadKeys, threadKey{})
+	e.inconcl = &e.Inconclusive
+	e.symOrd = &e.symOrder
+	e.assumes = new(int64)
+	e.viol = &e.Violations
+	e.witness = &e.Witness
 	registerIntrinsics(e)
 	for _, f := range moreIntrinsics {
 		f(e)
@@ -138,22 +156,33 @@ func NewEngine(prog *ssa.Program, solver *smt.Solver) *Engine {
 }
 
 func (e *Engine) internObj(k objKey) ObjID {
-	if id, ok := e.objIDs[k]; ok {
-		return id
+	if id, ok := e.objIDs.Load(k); ok {
+		return id.(ObjID)
 	}
-	id := ObjID(len(e.objKeys))
-	e.objKeys = append(e.objKeys, k)
-	e.objIDs[k] = id
+	e.mu.Lock()
+	defer e.mu.Unlock()
+	if id, ok := e.objIDs.Load(k); ok {
+		return id.(ObjID)
+	}
+	*e.nObj++
+	id := ObjID(*e.nObj)
+	e.objIDs.Store(k, id)
 	return id
 }
 
 func (e *Engine) internThread(k threadKey) ThreadID {
-	if id, ok := e.threadIDs[k]; ok {
-		return id
+	if id, ok := e.threadIDs.Load(k); ok {
+		return id.(ThreadID)
 	}
-	id := ThreadID(len(e.threadKeys))
-	e.threadKeys = append(e.threadKeys, k)
-	e.threadIDs[k] = id
+	e.mu.Lock()
+	defer e.mu.Unlock()
+	if id, ok := e.threadIDs.Load(k); ok {
+		return id.(ThreadID)
+	}
+	*e.nThr++
+	id := ThreadID(*e.nThr)
+	e.threadIDs.Store(k, id)
+	e.threadKeyOf.Store(id, k)
 	return id
 }
 
@@ -161,30 +190,59 @@ func (e *Engine) threadName(id ThreadID) string {
 	if id == 1 {
 		return "main"
 	}
-	k := e.threadKeys[id]
+	kv, _ := e.threadKeyOf.Load(id)
+	k, _ := kv.(threadKey)
 	return fmt.Sprintf("%s/go@%s#%d", e.threadName(k.parent), k.site, k.n)
 }
 
 func (e *Engine) fnID(f *ssa.Function) int {
-	if id, ok := e.fnIDs[f]; ok {
-		return id
+	if id, ok := e.fnIDs.Load(f); ok {
+		return id.(int)
 	}
-	id := len(e.fnIDs) + 1
-	e.fnIDs[f] = id
-	return id
+	e.mu.Lock()
+	defer e.mu.Unlock()
+	if id, ok := e.fnIDs.Load(f); ok {
+		return id.(int)
+	}
+	*e.nFn++
+	e.fnIDs.Store(f, *e.nFn)
+	return *e.nFn
 }
 
 func (e *Engine) noteFunction(f *ssa.Function) {
 	if f.Pkg == nil && f.Synthetic != "" {
 		return
 	}
+	if e.localFuncs != nil {
+		e.localFuncs[f] = true
+		return
+	}
+	e.mu.Lock()
 	e.Funcs[f.String()] = true
+	e.mu.Unlock()
 }
 
 // ---------------------------------------------------------------- solver glue
 
 // check returns 1 sat, 2 unsat, 0 unknown.
+// session: solver dialogue sections (check + get-value sequences) are exclusive among workers.
+func (e *Engine) lockSolver() (unlock func()) {
+	if e.inSession {
+		return func() {}
+	}
+	e.solverMu.Lock()
+	e.inSession = true
+	return func() { e.inSession = false; e.solverMu.Unlock() }
+}
+
+func (e *Engine) inconclusive(msg string) {
+	e.mu.Lock()
+	*e.inconcl = append(*e.inconcl, msg)
+	e.mu.Unlock()
+}
+
 func (e *Engine) check(conj ...*term.Term) int {
+	defer e.lockSolver()()
 	r := e.Solver.Check(conj...)
 	switch r {
 	case smt.Sat:
@@ -192,12 +250,13 @@ func (e *Engine) check(conj ...*term.Term) int {
 	case smt.Unsat:
 		return 2
 	}
-	e.Inconclusive = append(e.Inconclusive, "solver unknown: "+e.Solver.LastErr)
+	e.inconclusive("solver unknown: " + e.Solver.LastErr)
 	return 0
 }
 
 // checkModel is check with a fresh solver call, so that model() may follow.
 func (e *Engine) checkModel(conj ...*term.Term) int {
+	defer e.lockSolver()()
 	r := e.Solver.CheckModel(conj...)
 	switch r {
 	case smt.Sat:
@@ -205,14 +264,15 @@ func (e *Engine) checkModel(conj ...*term.Term) int {
 	case smt.Unsat:
 		return 2
 	}
-	e.Inconclusive = append(e.Inconclusive, "solver unknown: "+e.Solver.LastErr)
+	e.inconclusive("solver unknown: " + e.Solver.LastErr)
 	return 0
 }
 
 func (e *Engine) model(vars []*term.Term) map[*term.Term]*term.Term {
+	defer e.lockSolver()()
 	m, err := e.Solver.Model(vars)
 	if err != nil {
-		e.Inconclusive = append(e.Inconclusive, "model: "+err.Error())
+		e.inconclusive("model: " + err.Error())
 		return nil
 	}
 	return m
@@ -223,6 +283,7 @@ func (e *Engine) probeVar(t *term.Term) *term.Term {
 	if t.Op == term.OpVar {
 		return t
 	}
+	defer e.lockSolver()()
 	if v, ok := e.probes[t]; ok {
 		return v
 	}
@@ -234,7 +295,9 @@ func (e *Engine) probeVar(t *term.Term) *term.Term {
 
 func (e *Engine) needBytesAxiom(n int) {
 	// injectivity of str_of_bytes_n is applied syntactically by term.Eq; no quantified axiom is sent
+	e.mu.Lock()
 	e.bytesAx[n] = true
+	e.mu.Unlock()
 }
 
 // ---------------------------------------------------------------- globals and package initialisation
